@@ -43,6 +43,16 @@ def cases(tier, seed):
     for p in GM.gen_fcn(1 if tier == 'quick' else 2):
         for a, w in (((2, 4, 8), (2, 4, 8)), ((8, 4), (4, 2, 8))):
             out.append({'prog': p, 'a': list(a), 'w': list(w), 'tier': tier})
+    # a layer invoked at two call sites (weight sharing), same / different resolution
+    for p in GM.gen_twice():
+        for a, w in (((2, 4, 8), (2, 4, 8)), ((8, 4), (4, 2, 8))):
+            out.append({'prog': p, 'a': list(a), 'w': list(w), 'tier': tier})
+    # networks with two inputs (joined by a sum, by a sum of convs, by a concat)
+    for join in ('sum', 'convsum', 'cat'):
+        for st in ([{'op': 'conv'}], [{'op': 'conv'}, {'op': 'skipadd'}], [{'op': 'conv', 'dw': True}, {'op': 'conv', 'k': 1}]):
+            for a, w in (((2, 4, 8), (2, 4, 8)), ((8, 4), (4, 2, 8))):
+                out.append({'prog': {'cin': 3, 'size': 6, 'two_in': join, 'stages': [dict(s) for s in st], 'head': 'flatlin'},
+                            'a': list(a), 'w': list(w), 'tier': tier})
     for p in GM.gen(2 if tier == 'quick' else 3):
         for a, w in (((2, 4, 8), (2, 4, 8)), ((8, 4, 2), (4, 8)), ((4, 8), (8, 2, 4))):
             if len(p['stages']) == 1 and not any(k in s for s in p['stages'] for k in ('bias', 'k', 's', 'act', 'cout')) and not p.get('head_bn'):
@@ -55,7 +65,7 @@ def make(prog, a, w, seed, **kw):
     from plinio.methods.mps import MPS, get_default_qinfo
     model, x = G2.build(prog, seed)
     qinfo = get_default_qinfo(w_precision=tuple(w), a_precision=tuple(a))
-    nas = MPS(model, input_shape=G2.input_shape(prog), qinfo=qinfo, **kw)
+    nas = MPS(model, qinfo=qinfo, **G2.shape_args(prog, x), **kw)
     return nas, x
 
 
@@ -94,6 +104,10 @@ def check_export(nas, x, exp):
                 q = getattr(e, attr)
                 if hasattr(q, 'precision') and int(q.precision) != int(s[role]):
                     bad.append(('precision-differs-from-summary', f'{lname}.{attr}.precision={int(q.precision)} but summary {role}={s[role]}'))
+    sites = {}
+    for n in exp.graph.nodes:
+        if n.op == 'call_module':
+            sites[str(n.target)] = sites.get(str(n.target), 0) + 1
     for n in exp.graph.nodes:
         if n.op != 'call_module':
             continue
@@ -104,8 +118,12 @@ def check_export(nas, x, exp):
         if pr is None:
             continue
         pname, pm = pr
+        # a module invoked at several call sites has ONE input-quantizer slot (finding D35): reported under its own kind
+        rep = '@layer-invoked-at-several-call-sites' if sites[str(n.target)] > 1 else ''
         if m.in_quantizer is not pm.out_quantizer:
-            bad.append(('in-quantizer-not-producers-out', f'{n.target}.in_quantizer is not {pname}.out_quantizer'))
+            bad.append(('in-quantizer-not-producers-out' + rep, f'{n.target}.in_quantizer is not {pname}.out_quantizer'))
+            if rep:
+                continue
         if str(n.target) in summ and pname in summ and 'out_precision' in summ[pname]:
             if summ[str(n.target)]['in_precision'] != summ[pname]['out_precision']:
                 bad.append(('in-precision-not-producers-out', f'summary: {n.target}.in_precision={summ[str(n.target)]["in_precision"]} '
@@ -199,23 +217,36 @@ def run_case(case, seed):
                 # sampled by a previous forward would show when it comes first)
                 if res['states'] % 2 == 0:
                     exp = nas.export()
-                    y = nas(x)
+                    y = G2.call(nas, x)
                 else:
-                    y = nas(x)
+                    y = G2.call(nas, x)
                     exp = nas.export()
                 exp.eval()
                 nas.eval()
-                ye = exp(x)
+                ye = G2.call(exp, x)
         except Exception as e:
             add('export-or-run-raises', 'export-or-run-raises/' + ssig, f'{label}: {type(e).__name__}: {str(e)[:200]}', label)
             continue
         if y.shape != ye.shape or not torch.equal(y, ye):
             d = float((y - ye).abs().max()) if y.shape == ye.shape else 'shape'
-            add('output-not-bit-identical', 'output-not-bit-identical/' + ssig,
+            sig = 'output-not-bit-identical/' + ssig
+            # causal attribution to finding D35: a layer invoked at several call sites whose (single) input-quantizer slot holds its
+            # own output quantizer scales its bias with the coefficients sampled by the PREVIOUS forward; if a second forward of the
+            # MPS model - nothing else changed - agrees with the exported network, the mismatch is that stale first forward
+            ncalls = {}
+            for nd in exp.graph.nodes:
+                if nd.op == 'call_module':
+                    ncalls[str(nd.target)] = ncalls.get(str(nd.target), 0) + 1
+            if any(v > 1 and hasattr(exp.get_submodule(k), 'in_quantizer') for k, v in ncalls.items()):
+                with torch.no_grad():
+                    y2 = G2.call(nas, x)
+                if y2.shape == ye.shape and torch.equal(y2, ye):
+                    sig = 'output-not-bit-identical/first-forward-after-coefficient-change@layer-invoked-at-several-call-sites'
+            add('output-not-bit-identical', sig,
                 f'a={a} w={w} {label}: MPS.eval()(x) and export().eval()(x) differ (max|diff|={d})', label)
         bad = check_export(nas, x, exp)
         for kind, msg in bad[:3]:
-            add(kind, f'{kind}/' + ssig, f'a={a} w={w} {label}: {msg}', label)
+            add(kind, kind if '@' in kind else f'{kind}/' + ssig, f'a={a} w={w} {label}: {msg}', label)
         if not bad:
             res['outcomes'].add('identical')
         if asg != init or (a, w) != ([2, 4, 8], [2, 4, 8]):
@@ -234,4 +265,4 @@ def _key(prog, a, w, label):
 
 def _shape_sig(prog):
     ops = '+'.join(sorted({s['op'] + ('-dw' if s.get('dw') else '') + ('-bn' if s.get('bn') else '') for s in prog['stages']}))
-    return f"{ops}/{prog['head']}"
+    return f"{ops}/{prog['head']}" + (f"/two-in-{prog['two_in']}" if prog.get('two_in') else '')
